@@ -25,7 +25,7 @@ STRINGS = ["", "hello", "a b", "a&b=c", "x=y", "50%", "%41", "%2541", "a+b", "in
            "?q", "#frag", "a/b;c", "&bytes=3", "'\"", "  "]
 FLOATS = [1e16, 2.5e+300, 1e-7, 0.1, -0.0, 123456789.125, 3.0, 1e15]
 INTS = [10**6, -10**9, 2**63, 0, 7]
-NESTED = [[1, 2], {"a": 1}, [1, [2, "x"]], {"k": [True, None, 1.5]}, ["int:5"], {"a b": "c&d"}]
+NESTED = [[1, 2], {"a": 1}, [1, [2, "x"]], {"k": [True, None, 1.5]}, ["int:5"], {"a b": "c&d"}, {"1": "x", "k": {"2024": [1]}}, {"007": 1, "7": 2}, [{"-3": None}, "5"]]
 
 
 def setup(part):
